@@ -744,6 +744,20 @@ Theorem C06_hals_iteration_on_data_reports_true_error : forall (F : Type) (Op : 
   hals_iteration_error Op solve X R w ms fs = err_cp_true Op X R w (fst (data_sweep Op solve X R w ms fs None)) None None.
 Proof. exact @hals_iteration_reports_true_error. Qed.
 Print Assumptions C06_hals_iteration_on_data_reports_true_error.
+(* the sweep with cp_normalize INSIDE it, on data (non_negative_parafac, non_negative_parafac_hals with normalize_factors=True): after every
+   updated mode but the last the state is normalised by an arbitrary oracle (of the mode and the state) that keeps one factor per mode;
+   nothing is normalised after the last updated mode, so the remembered MTTKRP - computed from the weights / factors of that moment -
+   is the MTTKRP of the last updated mode for the final state and the shortcut paired with that mode's factor is the explicit squared
+   residual of the final state; every update oracle, any modes list whose last entry is a mode *)
+Theorem C06_sweep_with_normalisation_on_data_reports_true_error : forall (F : Type) (Op : fops F),
+  ring_theory (f0 Op) (f1 Op) (fadd Op) (fmul Op) (fsub Op) (fopp Op) (@eq F) ->
+  forall (solve : nat -> tensor F -> list (tensor F) -> tensor F) (norm : nat -> @cpstate F -> @cpstate F) (normalize : bool) (X : tensor F) (R : nat),
+  (normalize = true -> forall m st, length (snd st) = length (shape X) -> length (snd (norm m st)) = length (shape X)) ->
+  forall ms st, length (snd st) = length (shape X) -> (ms = [] \/ last ms 0 < length (shape X)) ->
+  norm_sweep_error Op solve norm normalize X R ms st
+  = (let st' := fst (norm_sweep Op solve norm normalize X R ms st None) in err_cp_true Op X R (fst st') (snd st') None None).
+Proof. exact @norm_sweep_reports_true_error. Qed.
+Print Assumptions C06_sweep_with_normalisation_on_data_reports_true_error.
 (* the semantic checker of tensor_ring_als's axis bookkeeping is sound: when it answers true for the pieces read off the source (cores
    of the sub-chain, transposition, row modes, rank indices of the two reshapes, transposition of the solution), the transposed
    sub-chain has the axes [row modes of the unfolded tensor] ++ [the bonds in the order the solution is reshaped with] and the reshaped,
@@ -756,6 +770,36 @@ Theorem C06_tr_bookkeeping_checker_sound : forall N dim chain row_modes tr_perm 
   map (bond N) cols = map (bond N) sol_rows /\ adjacent N chain = true.
 Proof. exact tr_bookkeeping_ok_sound. Qed.
 Print Assumptions C06_tr_bookkeeping_checker_sound.
+(* ... and the model's own pieces (the cores (dim+j) mod N for j = 1..N-1, the rows [n != dim] in increasing order, tr_idx, the rank indices
+   [dim; dim+1] in both reshapes, the transposition [0; 2; 1]) pass the checker for EVERY order N >= 2 and every mode: with the soundness
+   theorem this is the universal statement of the bookkeeping with bonds taken modulo N, the transposition of the solution included *)
+Theorem C06_tr_bookkeeping_model_passes_checker : forall N dim, 2 <= N -> dim < N -> tr_bookkeeping_model_ok N dim = true.
+Proof. exact tr_bookkeeping_model_ok_all. Qed.
+Print Assumptions C06_tr_bookkeeping_model_passes_checker.
+(* randomised_parafac's gating (Model/Errors.v:r_loop): the error is recomputed under one gate, recorded under a second and handed to the
+   callback under a third.  As soon as the value is recomputed in every iteration in which it is recorded or handed over (in the code:
+   compute = max_stagnation or tol or callback given; record = max_stagnation or tol), for EVERY oracle of updates, callback stops and
+   convergence / stagnation stops every recorded value and every (iterate, value) pair the callback receives inside the loop is the
+   error of the iterate of its iteration, and the returned iterate is the last one - in particular with tol = 0 and max_stagnation = 0,
+   where nothing is recorded and only the callback asks for the error.  The ast tie re-proves the two implications for the gates read
+   off the current source. *)
+Theorem C06_randomised_gating_values_true : forall (St E : Type) (err : St -> E) (Or : roracle St E) (compute record cb : bool),
+  (record = true -> compute = true) -> (cb = true -> compute = true) ->
+  forall n it cur e0 errs cbs,
+  let r := r_loop St E err Or compute record cb n it cur e0 errs cbs in
+  let sts := r_states St E err Or compute record cb n it cur e0 errs in
+  snd (fst r) = errs ++ (if record then map err sts else []) /\
+  snd r = cbs ++ (if cb then map (fun s => (s, err s)) sts else []) /\
+  fst (fst r) = last sts cur.
+Proof. exact r_loop_values_true. Qed.
+Print Assumptions C06_randomised_gating_values_true.
+(* the hypothesis matters: with the error recomputed only when it is recorded (and nothing recorded) every in-loop callback receives the
+   value computed before the loop *)
+Theorem C06_randomised_stale_gate_refuted :
+  snd (r_loop nat nat (fun st => st) toy_r false false true 3 0 0 0 [] []) = [(1, 0); (2, 0); (3, 0)] /\
+  snd (r_loop nat nat (fun st => st) toy_r true false true 3 0 0 0 [] []) = [(1, 1); (2, 2); (3, 3)].
+Proof. exact r_loop_stale_gate_refuted. Qed.
+Print Assumptions C06_randomised_stale_gate_refuted.
 (* non-vacuity of round 7: a 2x2 integer matrix, rank 1, 7 iterations with line search on: the solve oracle answers the MTTKRP itself,
    the extrapolation is the transcribed rule with jump 2 and is accepted at iteration 6 - the hypotheses of the loop theorem hold
    (ls_extrapolate keeps one factor per mode), 7 values are recorded, they are the explicit residuals of the end-of-iteration states,
@@ -773,11 +817,15 @@ Example C06_round7_nonvacuous :
   forallb (fun N => forallb (fun dim => tr_bookkeeping_model_ok N dim) (seq 0 N)) (seq 2 6) = true /\
   (let fs := [mk [2;1] [1;1]%Z; mk [2;1] [1;2]%Z] in
    fst (constrained_iteration_error Zops (fun _ M _ => M) X 1 (Some [2%Z]) [0;1] fs) = fst (err_cp_true Zops X 1 (Some [2%Z]) (fst (data_sweep Zops (fun _ M _ => M) X 1 None [0;1] fs None)) None None) /\
-   fst (hals_iteration_error Zops (fun _ M _ => M) X 1 (Some [2%Z]) [1;0] fs) = fst (err_cp_true Zops X 1 (Some [2%Z]) (fst (data_sweep Zops (fun _ M _ => M) X 1 (Some [2%Z]) [1;0] fs None)) None None)).
+   fst (hals_iteration_error Zops (fun _ M _ => M) X 1 (Some [2%Z]) [1;0] fs) = fst (err_cp_true Zops X 1 (Some [2%Z]) (fst (data_sweep Zops (fun _ M _ => M) X 1 (Some [2%Z]) [1;0] fs None)) None None) /\
+   (let nrm := fun (_ : nat) (s : @cpstate Z) => (Some [(-3)%Z], snd s) in
+    let st' := fst (norm_sweep Zops (fun _ M _ => M) nrm true X 1 [0;1] (Some [2%Z], fs) None) in
+    fst st' = Some [(-3)%Z] /\ fst (norm_sweep_error Zops (fun _ M _ => M) nrm true X 1 [0;1] (Some [2%Z], fs)) = fst (err_cp_true Zops X 1 (fst st') (snd st') None None))).
 Proof.
   cbv zeta. split; [intros acc it a b Ha Hb; cbn [fl_jump]; now apply ls_extrapolate_wf|].
   split; [vm_compute; reflexivity|]. split; [vm_compute; reflexivity|].
-  split; [vm_compute; intros H; discriminate H|]. split; [exact tr_bookkeeping_model_ok_sample|]. split; vm_compute; reflexivity.
+  split; [vm_compute; intros H; discriminate H|]. split; [exact tr_bookkeeping_model_ok_sample|]. split; [vm_compute; reflexivity|]. split; [vm_compute; reflexivity|].
+  split; vm_compute; reflexivity.
 Qed.
 
 (* ---- non-vacuity: the hypotheses are satisfiable and the model computes *)
